@@ -519,6 +519,8 @@ class MetadorGroup(MetadorNode):
             self._guard_path(dest)
             dst_path = dest
         elif isinstance(dest, MetadorGroup):
+            if dest._self_container is not self._self_container:
+                raise ValueError("Copy dest must be a group of the same container!")
             dst_path = dest.name.rstrip("/") + f"/{dst_name}"
             if M.is_internal_path(dst_path):
                 msg = f"Trying to use a Metador-internal path: '{dst_path}'"
@@ -548,10 +550,12 @@ class MetadorGroup(MetadorNode):
             del dst_node.__wrapped__[M.METADOR_TOC_PATH.lstrip("/")]
 
         src_meta: str = src_node.meta._base_dir
-        if src_is_dataset and not without_meta and src_meta in self.__wrapped__:
+        # (the source node could belong to a different container)
+        src_raw = src_node._self_container.__wrapped__
+        if src_is_dataset and not without_meta and src_meta in src_raw:
             # because metadata lives in parallel group, need to copy separately:
             dst_meta: str = dst_node.meta._base_dir  # node will not exist yet
-            self.__wrapped__.copy(src_meta, dst_meta, **copy_kwargs)  # RAW
+            self.__wrapped__.copy(src_raw[src_meta], dst_meta, **copy_kwargs)  # RAW
 
             # register in TOC:
             dst_meta_node = self.__wrapped__[dst_meta]
